@@ -95,5 +95,10 @@ TEXTS = {
   "level": "exploration: 44 getters x 4 argument classes, 15 high-level setter/admin calls x 4 classes, 72 low-level senders in/out of range, flush and the queue readers are executed completely in every enumeration case; 25 rejection classes for start+stop; concurrent schedules with preemption at every lock operation; evidence lists every lock-order edge observed",
   "note": "the order graph treats an rwlock as one node regardless of mode; recursive read acquisition by one thread is reported as information (legal with glibc's reader-preferring default, which the lock model mirrors); absence of a cycle in the observed graph is not a proof for paths never executed",
  },
+ "C10": {
+  "technique": "property-based testing (rapidcheck) over thread plans and schedules in two flavours of one harness: (1) deterministic scheduler with generated preemptions at every lock operation, ASan, library built with -finstrument-functions for a lock-contract monitor generated from the tree's 'Shall only be called with X acquired' comments, linearizability-style oracle for entity getters against the reference state model; (2) free-running real threads under ThreadSanitizer with generated delays at lock operations",
+  "level": "exploration: 2-4 (scheduled) / 2-12 (ThreadSanitizer) application threads mixing every getter, high-level setter, admin call, low-level sender, flush and queue reader with continuous uplink traffic and auto-flush; no sanitizer report with a library frame, every reached internal accessor holds the locks its contract names, every concurrently returned entity state existed at a message boundary inside the call window, no lock held at return or after stop",
+  "note": "absence of a ThreadSanitizer report is evidence for the interleavings and memory the instrumentation saw (glib internals are uninstrumented); reports inside bidib_start_*, bidib_stop, bidib_send_sys_reset, bidib_communication_works are outside the documented contract and ignored; once-only queue delivery under concurrent readers is checked by C06",
+ },
 }
 NOT_YET = {}
